@@ -300,9 +300,10 @@ fn main() {
         summary.push(serde_json::json!({"config": label, "preemption_bound": bound, "schedules": st.executions, "max_points": st.max_points, "capped": st.capped}));
     }
     let calls: Vec<String> = calls_seen.lock().unwrap().iter().cloned().collect();
-    let violations = run.n_new_violations();
-    // machine-readable summary for the C18 check, which embeds it into its own evidence
-    println!("FS-SUMMARY {}", serde_json::json!({"configs": summary, "calls_intercepted": calls, "points_seen": POINTS_SEEN.load(Ordering::Relaxed), "violations": violations}));
+    let found = run.dump_violations();
+    let violations = found.len();
+    // machine-readable summary for the C18 check, which embeds it into its own evidence and re-reports the violations
+    println!("FS-SUMMARY {}", serde_json::json!({"configs": summary, "calls_intercepted": calls, "points_seen": POINTS_SEEN.load(Ordering::Relaxed), "violations": violations, "found": found}));
     let _ = std::fs::remove_dir_all(&dir);
     if calls.is_empty() {
         eprintln!("no file-system call was intercepted: the interposition does not work in this build");
